@@ -124,4 +124,6 @@ def build(tier):  # noqa: F811
                         descr='disputed-PoSt penalty >= 20 FIL base', bounds='CUT: extrapolated_cum_sum_of_ratio = arbitrary integer', max_paths=200))
     O.append(Obligation('monies.consensus_fault_penalty', run_cf_penalty, props_cf_penalty,
                         descr='consensus fault penalty and reporter share formulas', bounds='reward unbounded', max_paths=100))
+    from . import miner_formulas
+    O += miner_formulas.build_fees(tier)
     return O
